@@ -12,6 +12,12 @@ package snowflake_client
 //   a scripted in-process broker and, for the "good" class, a real pion peer
 //   answering in-process.  It records (result, events) per case; the
 //   comparison with the outcome computed by TLC is data equality.
+//   Events are consumed the way the client binary consumes them: the dialer
+//   gets an event.NewSnowflakeEventDispatcher() to which a listener is added
+//   that, like client/snowflake.go's ptEventLogger, calls String() on every
+//   event synchronously and without recover (vc15PTLogger).  A panic raised
+//   there unwinds through connect/Catch; only the harness recovers it and
+//   reports it as a panic of the event listener.
 //
 // TestVerifC15ConnectLoop  runs the real Transport.Dial / connectLoop /
 //   SnowflakeConn.Close in real time: after Close has returned no further
@@ -58,14 +64,51 @@ type vc15PCResult struct {
 	Events []string        `json:"events"`
 	Err    string          `json:"err,omitempty"`
 	Panic  string          `json:"panic,omitempty"`
-	Stack  string          `json:"stack,omitempty"`
-	WallMs int64           `json:"wall_ms"`
+	// PanicIn is "event-listener/<event type>" when the panic was raised while
+	// the ptEventLogger mirror was printing an event.
+	PanicIn  string   `json:"panic_in,omitempty"`
+	Contract []string `json:"contract,omitempty"` // violations of the general event contract
+	Stack    string   `json:"stack,omitempty"`
+	WallMs   int64    `json:"wall_ms"`
 }
 
-// vc15Events records the events the client reports.
+// vc15PTLogger mirrors client/snowflake.go:
+//
+//	func (p ptEventLogger) OnNewSnowflakeEvent(e event.SnowflakeEvent) {
+//		pt.Log(pt.LogSeverityNotice, e.String())
+//	}
+//
+// synchronous, on the emitting goroutine, no recover.  (pt.Log writes a PT
+// protocol line to stdout; the harness keeps the string instead.)
+type vc15PTLogger struct {
+	mu       sync.Mutex
+	printing string // type of the event String() is being called on, "" when idle
+	lines    []string
+}
+
+func (p *vc15PTLogger) OnNewSnowflakeEvent(e event.SnowflakeEvent) {
+	p.mu.Lock()
+	p.printing = fmt.Sprintf("%T", e)
+	p.mu.Unlock()
+	line := e.String()
+	p.mu.Lock()
+	p.printing = ""
+	p.lines = append(p.lines, line)
+	p.mu.Unlock()
+}
+
+func (p *vc15PTLogger) inProgress() string {
+	p.mu.Lock()
+	defer p.mu.Unlock()
+	return strings.TrimPrefix(p.printing, "event.")
+}
+
+// vc15Events records the events the client reports and checks the general
+// contract of an event: an event that reports a failure carries the error.
 type vc15Events struct {
-	mu  sync.Mutex
-	evs []string
+	mu       sync.Mutex
+	evs      []string
+	contract []string
 }
 
 func (e *vc15Events) OnNewSnowflakeEvent(ev event.SnowflakeEvent) {
@@ -85,6 +128,12 @@ func (e *vc15Events) OnNewSnowflakeEvent(ev event.SnowflakeEvent) {
 		s = "connected"
 	case event.EventOnSnowflakeConnectionFailed:
 		s = "failed"
+		if v.Error == nil {
+			s = "failed:nilerr"
+			e.mu.Lock()
+			e.contract = append(e.contract, "nil-error/EventOnSnowflakeConnectionFailed")
+			e.mu.Unlock()
+		}
 	default:
 		s = fmt.Sprintf("other:%T", ev)
 	}
@@ -97,6 +146,24 @@ func (e *vc15Events) snapshot() []string {
 	e.mu.Lock()
 	defer e.mu.Unlock()
 	return append([]string{}, e.evs...)
+}
+
+func (e *vc15Events) violations() []string {
+	e.mu.Lock()
+	defer e.mu.Unlock()
+	return append([]string{}, e.contract...)
+}
+
+// vc15Wire builds the dispatcher exactly as NewSnowflakeClient + the client
+// binary do: a fresh dispatcher handed to the dialer, listeners added to it.
+// The recorder comes first so that an event is on record before the printing
+// listener may panic on it.
+func vc15Wire() (event.SnowflakeEventDispatcher, *vc15Events, *vc15PTLogger) {
+	disp := event.NewSnowflakeEventDispatcher()
+	rec, ptl := &vc15Events{}, &vc15PTLogger{}
+	disp.AddSnowflakeEventListener(rec)
+	disp.AddSnowflakeEventListener(ptl)
+	return disp, rec, ptl
 }
 
 // vc15StunServer answers STUN binding requests on a local UDP socket.
@@ -245,8 +312,8 @@ func vc15RunPCCase(c vc15PCCase, stunURL string) (res vc15PCResult) {
 		return
 	}
 	broker := &BrokerChannel{Rendezvous: rv, keepLocalAddresses: true, natType: "unknown"}
-	evs := &vc15Events{}
-	dialer := NewWebRTCDialerWithEvents(broker, parseIceServers(addrs), 1, evs)
+	disp, evs, ptl := vc15Wire()
+	dialer := NewWebRTCDialerWithEvents(broker, parseIceServers(addrs), 1, disp)
 
 	func() {
 		defer func() {
@@ -254,6 +321,9 @@ func vc15RunPCCase(c vc15PCCase, stunURL string) (res vc15PCResult) {
 				res.Result = "panic"
 				res.Panic = fmt.Sprint(r)
 				res.Stack = string(debug.Stack())
+				if t := ptl.inProgress(); t != "" {
+					res.PanicIn = "event-listener/" + t
+				}
 			}
 		}()
 		peer, err := dialer.Catch()
@@ -272,6 +342,7 @@ func vc15RunPCCase(c vc15PCCase, stunURL string) (res vc15PCResult) {
 		}
 	}()
 	res.Events = evs.snapshot()
+	res.Contract = evs.violations()
 	if harnessErr != "" {
 		res.Result = "harness"
 		res.Err = harnessErr
@@ -332,17 +403,34 @@ func TestVerifC15PeerConnect(t *testing.T) {
 // ---------------------------------------------------------------------------
 
 type vc15CountingRendezvous struct {
-	calls    int32
-	gate     chan struct{} // non-nil: the first Exchange parks here
-	inFlight int32
+	calls       int32
+	gate        chan struct{} // non-nil: the first Exchange parks here
+	inFlight    int32
+	answerFirst bool // the first Exchange is answered by a real peer that then goes away
+	note        string
 }
 
-func (r *vc15CountingRendezvous) Exchange([]byte) ([]byte, error) {
+func (r *vc15CountingRendezvous) Exchange(enc []byte) ([]byte, error) {
 	n := atomic.AddInt32(&r.calls, 1)
 	if n == 1 && r.gate != nil {
 		atomic.StoreInt32(&r.inFlight, 1)
 		<-r.gate
 		atomic.StoreInt32(&r.inFlight, 0)
+	}
+	if n == 1 && r.answerFirst {
+		req, err := messages.DecodeClientPollRequest(enc)
+		if err != nil {
+			r.note = "poll request does not decode: " + err.Error()
+			return nil, err
+		}
+		var keep []*webrtc.PeerConnection
+		var mu sync.Mutex
+		ans, err := vc15Answer(req.Offer, false, &keep, &mu)
+		if err != nil {
+			r.note = "answerer: " + err.Error()
+			return nil, err
+		}
+		return (&messages.ClientPollResponse{Answer: ans}).EncodePollResponse()
 	}
 	return nil, fmt.Errorf("verif: scripted rendezvous failure")
 }
@@ -357,39 +445,63 @@ type vc15LoopResult struct {
 	SecondClose    string `json:"second_close"` // ok | panic:<text> | hang
 	ObservedMs     int64  `json:"observed_ms"`
 	Note           string `json:"note,omitempty"`
+	// data-channel-never-opens scenario: the failed attempt was reported and a new one followed
+	Retried  bool     `json:"retried"`
+	Events   []string `json:"events"`
+	Contract []string `json:"contract,omitempty"`
 }
 
 // vc15LoopScenario: Dial with a rendezvous that always fails, Close at the
 // chosen moment, Close again, then watch for rendezvous attempts for longer
 // than ReconnectTimeout.
-func vc15LoopScenario(name string, inFlight bool, max int) (res vc15LoopResult) {
+func vc15LoopScenario(name string, inFlight bool, max int, dcNever bool) (res vc15LoopResult) {
 	res.Scenario = name
-	rv := &vc15CountingRendezvous{}
+	rv := &vc15CountingRendezvous{answerFirst: dcNever}
 	if inFlight {
 		rv.gate = make(chan struct{})
 	}
 	broker := &BrokerChannel{Rendezvous: rv, keepLocalAddresses: true, natType: "unknown"}
-	tr := &Transport{dialer: NewWebRTCDialerWithEvents(broker, nil, max, nil), eventDispatcher: event.NewSnowflakeEventDispatcher()}
+	// as NewSnowflakeClient does: one dispatcher for the dialer and the Transport;
+	// as the client binary does: transport.AddSnowflakeEventListener(<printing logger>)
+	disp := event.NewSnowflakeEventDispatcher()
+	tr := &Transport{dialer: NewWebRTCDialerWithEvents(broker, nil, max, disp), eventDispatcher: disp}
+	rec, ptl := &vc15Events{}, &vc15PTLogger{}
+	tr.AddSnowflakeEventListener(rec)
+	tr.AddSnowflakeEventListener(ptl)
+	defer func() {
+		res.Events = rec.snapshot()
+		res.Contract = rec.violations()
+	}()
 	conn, err := tr.Dial()
 	if err != nil {
 		res.Note = "Dial: " + err.Error()
 		return
 	}
-	// wait for the first attempt
-	deadline := time.Now().Add(8 * time.Second)
+	// wait for the first attempt (dcNever: for the attempt after the one whose data channel never opened)
+	want := int32(1)
+	wait := 8 * time.Second
+	if dcNever {
+		want, wait = 2, DataChannelTimeout+8*time.Second
+	}
+	deadline := time.Now().Add(wait)
 	for time.Now().Before(deadline) {
 		if inFlight && atomic.LoadInt32(&rv.inFlight) == 1 {
 			break
 		}
-		if !inFlight && atomic.LoadInt32(&rv.calls) >= 1 {
+		if !inFlight && atomic.LoadInt32(&rv.calls) >= want {
 			break
 		}
 		time.Sleep(5 * time.Millisecond)
+	}
+	if rv.note != "" {
+		res.Note = "harness: " + rv.note
+		return
 	}
 	if atomic.LoadInt32(&rv.calls) < 1 {
 		res.Note = "no rendezvous attempt within 8s"
 		return
 	}
+	res.Retried = atomic.LoadInt32(&rv.calls) >= 2
 	if !inFlight {
 		time.Sleep(300 * time.Millisecond) // let Collect return; the loop is now in its timer wait
 	}
@@ -459,16 +571,18 @@ func TestVerifC15ConnectLoop(t *testing.T) {
 		name     string
 		inFlight bool
 		max      int
+		dcNever  bool
 	}
-	scs := []sc{{"close-during-timer-wait/max1", false, 1}, {"close-during-rendezvous/max1", true, 1},
-		{"close-during-timer-wait/max2", false, 2}, {"close-during-rendezvous/max2", true, 2}}
+	scs := []sc{{"close-during-timer-wait/max1", false, 1, false}, {"close-during-rendezvous/max1", true, 1, false},
+		{"close-during-timer-wait/max2", false, 2, false}, {"close-during-rendezvous/max2", true, 2, false},
+		{"dc-never-opens-then-retry/max1", false, 1, true}}
 	results := make([]vc15LoopResult, len(scs))
 	var wg sync.WaitGroup
 	for i := range scs {
 		wg.Add(1)
 		go func(i int) {
 			defer wg.Done()
-			results[i] = vc15LoopScenario(scs[i].name, scs[i].inFlight, scs[i].max)
+			results[i] = vc15LoopScenario(scs[i].name, scs[i].inFlight, scs[i].max, scs[i].dcNever)
 		}(i)
 	}
 	wg.Wait()
